@@ -231,6 +231,9 @@ func (g *FuncGen) oblig(kind, label, expr string, p token.Pos, props []string, s
 	}
 	if props == nil {
 		props = g.props
+		if g.c != nil && isSafetyKind(kind) && g.c.Opts["safety_props"] != "" {
+			props = strings.Fields(strings.ReplaceAll(g.c.Opts["safety_props"], ",", " "))
+		}
 	}
 	ob := &Obligation{Name: name, Kind: kind, Label: label, Guard: g.guard, Expr: expr, Pos: g.pos(p), Props: props, NItems: len(g.items), Fn: g.key, Src: src}
 	g.obls = append(g.obls, ob)
